@@ -508,12 +508,12 @@ def _extract_transform(
             return None
         if (original_transform := _extract_geo_transform(crs_coord)) is None:
             return None
+        fallback_res = resolution_from_affine(original_transform)
+        if not gcp and _xx.encoding.get("_transform", None) is not None:
+            # non-axis aligned geobox: coordinates are in pixels, not in world units
+            fallback_res = Resolution(1, 1)
         try:
-            transform = affine_from_axis(
-                _xx.values,
-                _yy.values,
-                resolution_from_affine(original_transform),
-            )
+            transform = affine_from_axis(_xx.values, _yy.values, fallback_res)
         except ValueError:
             return None
 
